@@ -1204,7 +1204,16 @@ func (g *Gen) endHeapAtHeader(li *loopInfo) *Heap {
 
 // relockHeap: heap of a map type listed in `track-locks relock-havoc`.
 func (g *Gen) relockHeap(n string) bool {
-	if g.fc == nil || !strings.HasPrefix(n, "map:") {
+	if g.fc == nil {
+		return false
+	}
+	if !strings.HasPrefix(n, "map:") {
+		// a struct field heap, listed as Type.field (e.g. keyedKeyState.version)
+		for _, u := range g.fc.RelockHavoc {
+			if !strings.Contains(u, "[") && (n == u || strings.HasSuffix(n, "."+u) || (curPkgName != "" && n == curPkgName+"."+u)) {
+				return true
+			}
+		}
 		return false
 	}
 	norm := func(s string) string {
